@@ -39,19 +39,23 @@ void hs_add(uint64_t h)
 }
 
 /* ---------------- guarded memory ---------------- */
+/* the inaccessible zones are wide (1 MiB below, 64 MiB above, address space only) so that a stray
+ * access with a large wrong offset still faults instead of landing in some other mapping of the checker */
+#define GUARD_LO_PAGES 256
+#define GUARD_HI_PAGES 16384
 void guarded_alloc(Guarded* g, size_t pages)
 {
     size_t ps = (size_t)sysconf(_SC_PAGESIZE);
-    uint8_t* p = mmap(NULL, (pages + 2) * ps, PROT_NONE, MAP_PRIVATE | MAP_ANONYMOUS, -1, 0);
+    uint8_t* p = mmap(NULL, (pages + GUARD_LO_PAGES + GUARD_HI_PAGES) * ps, PROT_NONE, MAP_PRIVATE | MAP_ANONYMOUS | MAP_NORESERVE, -1, 0);
     if (p == MAP_FAILED) { perror("mmap"); exit(2); }
-    if (mprotect(p + ps, pages * ps, PROT_READ | PROT_WRITE)) { perror("mprotect"); exit(2); }
-    g->base = p; g->pages = pages; g->lo = p + ps; g->hi = p + ps + pages * ps;
+    if (mprotect(p + GUARD_LO_PAGES * ps, pages * ps, PROT_READ | PROT_WRITE)) { perror("mprotect"); exit(2); }
+    g->base = p; g->pages = pages; g->lo = p + GUARD_LO_PAGES * ps; g->hi = g->lo + pages * ps;
 }
 
 void guarded_free(Guarded* g)
 {
     size_t ps = (size_t)sysconf(_SC_PAGESIZE);
-    munmap(g->base, (g->pages + 2) * ps);
+    munmap(g->base, (g->pages + GUARD_LO_PAGES + GUARD_HI_PAGES) * ps);
 }
 
 /* ---------------- faults ---------------- */
